@@ -445,6 +445,7 @@ class Worker:
                     # removed from the ready queue because it is much
                     # cheaper to just discard cancelled tasks as they
                     # come out.
+                    self._tasks.pop(addr, None)
                     continue
 
                 task = self._tasks[addr]
@@ -457,8 +458,7 @@ class Worker:
                     # cancelled then discard this one too. Each breadcrumb
                     # (bcb) is a task address (unique system-wide task id)
                     # of an ancestor task.
-                    # TODO: do I need to manually remove addr from
-                    # self._tasks?
+                    self._tasks.pop(addr, None)
                     continue
 
                 return task
@@ -483,19 +483,22 @@ class Worker:
             future = task.step(desired_result)
 
             with self._state_lock:
-                self._process_await(task, future)
+                if task.return_address in self._tasks:
+                    self._process_await(task, future)
+                else:
+                    # Cancelled while it was executing
+                    self._discard_mailboxes(task)
 
         except StopIteration as e:
             with self._state_lock:
                 self._process_task_completion(task, e.value)
 
-        except Exception as e:
-            if type(e) is RuntimeError:
-                with self._state_lock:
-                    cancelled_task_ids = list(self._cancelled_task_ids)
-
-                for addr in cancelled_task_ids:
+        except Exception:
+            # Errors raised by cancelled tasks are discarded
+            with self._state_lock:
+                for addr in self._cancelled_task_ids:
                     if task.is_descendant_of(addr):
+                        self._discard_mailboxes(task)
                         return
 
             assert self._active_task is not None  # for type checker
@@ -544,6 +547,7 @@ class Worker:
         if task.return_address not in self._tasks:
             # print(f'Task was cancelled: {task.return_address},
             # {task.fnargs[0].__name__}')
+            self._discard_mailboxes(task)
             return
 
         if task.return_address.worker_id == self._id:
@@ -567,6 +571,12 @@ class Worker:
 
             # Otherwise send a cancel message
             self.cancel(RuntimeFuture(mailbox_id))
+
+    def _discard_mailboxes(self, task: RuntimeTask) -> None:
+        """Drop the mailboxes a cancelled task opened after its removal."""
+        for mailbox_id in task.owned_mailboxes:
+            self._mailboxes.pop(mailbox_id, None)
+        task.owned_mailboxes.clear()
 
     def _get_desired_result(self, task: RuntimeTask) -> Any:
         """Retrieve the task's desired result from the mailboxes."""
